@@ -553,6 +553,23 @@ def replay_determinism(a, runs=8):
                 out = re.sub(r'time="\d+"', 'time="_"', p.stdout)
                 out = re.sub(r'"time":\s*\d+', '"time": 0', out)
                 out = re.sub(r'^(\s*)time: \d+$', r'\1time: 0', out, flags=re.M)
+                if "--print-json" in args:
+                    # the console part before the JSON tree is plain text: per-resource blocks are independent detail lines whose order the
+                    # property leaves open (`identical up to the order of independent detail lines`); the JSON tree must be byte-identical
+                    lines_ = out.splitlines()
+                    j0 = next((i for i, l in enumerate(lines_) if l == "{"), len(lines_))
+                    head_, blocks_, cur_ = [], [], None
+                    for l in lines_[:j0]:
+                        if l.startswith("Resource = ") or (cur_ is None and l.startswith("Rule = ")):
+                            cur_ = [l]
+                            blocks_.append(cur_)
+                        elif cur_ is not None:
+                            cur_.append(l)
+                            if l == "}":
+                                cur_ = None
+                        else:
+                            head_.append(l)
+                    out = "\n".join(head_ + ["\n".join(b) for b in sorted(blocks_)] + lines_[j0:])
                 seen.setdefault((p.returncode, out), 0)
                 seen[(p.returncode, out)] += 1
             ran = all(rc in (0, 7, 19) and out.strip() for rc, out in seen)
